@@ -7,19 +7,22 @@
      reset   {init, maxserial}: the store holds the genuine TRCs 1..init
      notify  {isd, base, serial, outc[serial], errnil, fetched[], stored[[serial, content]], foreign, latest}
      concurrent {calls[{serial, outc, errnil, fetched}], stored, foreign, latest}: simultaneous calls
-     load    {files[{serial, content, future}], errnil, loaded, ignored, stored, foreign, latest}       *)
+     load    {files[{serial, content, future, isd, junk}], errnil, loaded, ignored, stored, foreign, latest}
+             (foreign: TRCs of other ISDs / bases in the store, [isd, base, serial, future])       *)
 EXTENDS TrustStoreOps, TLC, Json
 
 Trace == ndJsonDeserialize("trace.ndjson")
 
-VARIABLES l, db, failed, nadv, nstop
-vars == <<l, db, failed, nadv, nstop>>
+VARIABLES l, db, failed, nadv, nstop,
+          fg      \* TRCs of other ISDs legitimately in the store (loaded from disk)
+vars == <<l, db, failed, nadv, nstop, fg>>
 R == Trace[l]
 
-Init == l = 1 /\ db = <<>> /\ failed = FALSE /\ nadv = 0 /\ nstop = 0
+Init == l = 1 /\ db = <<>> /\ failed = FALSE /\ nadv = 0 /\ nstop = 0 /\ fg = {}
+FSet(f) == {f[i] : i \in 1..Len(f)}
 
 Bad(key) == /\ PrintT(<<"VERIF-BAD", l, key>>)
-            /\ failed' = TRUE /\ UNCHANGED <<db, nadv, nstop>>
+            /\ failed' = TRUE /\ UNCHANGED <<db, nadv, nstop, fg>>
 
 \* the observed store as a function serial -> content ("dup" if an ID is reported twice)
 Obs(stored, S) == [s \in S |-> LET e == {i \in 1..Len(stored) : stored[i][1] = s} IN
@@ -29,7 +32,7 @@ Obs(stored, S) == [s \in S |-> LET e == {i \in 1..Len(stored) : stored[i][1] = s
 Outside(stored, S) == \E i \in 1..Len(stored) : stored[i][1] \notin S
 
 Reset == /\ db' = [s \in 1..(R.maxserial + 2) |-> IF s <= R.init THEN "a" ELSE "none"]
-         /\ failed' = FALSE /\ UNCHANGED <<nadv, nstop>>
+         /\ failed' = FALSE /\ fg' = {} /\ UNCHANGED <<nadv, nstop>>
 
 DiffKey(exp, obs) ==
     LET S == DOMAIN exp
@@ -46,7 +49,7 @@ Notify ==
         expdb == IF R.isd = 1 THEN exp.db ELSE db
         obs == Obs(R.stored, S)
         fail == IF exp.err = "" THEN "" ELSE LET f == FirstFailure(Latest(db), R.serial, outc) IN ":" \o outc[f] IN
-    IF R.foreign # 0 \/ Outside(R.stored, S) THEN Bad("notify:foreign-trc-stored" \o fail)
+    IF ~(FSet(R.foreign) \subseteq fg) \/ Outside(R.stored, S) THEN Bad("notify:foreign-trc-stored" \o fail)
     ELSE IF obs # expdb THEN Bad("notify:" \o DiffKey(expdb, obs) \o fail)
     ELSE IF R.latest < Latest(db) THEN Bad("notify:latest-regressed")
     ELSE IF R.fetched # exp.fetched THEN
@@ -56,21 +59,30 @@ Notify ==
          /\ ((R.errnil = 1) # (exp.err = "")) => PrintT(<<"VERIF-DRIFT", l, "notify-error-value:" \o exp.err>>)
          /\ nadv' = nadv + (IF Latest(obs) > Latest(db) THEN 1 ELSE 0)
          /\ nstop' = nstop + (IF exp.err \in {"fetch", "verify", "insert"} THEN 1 ELSE 0)
-         /\ UNCHANGED failed
+         /\ UNCHANGED <<failed, fg>>
 
 Load ==
     LET S == DOMAIN db
         obs == Obs(R.stored, S)
         exp == LoadResult(db, R.files)
         new == {s \in S : obs[s] # db[s]} IN
-    IF R.foreign # 0 \/ Outside(R.stored, S) THEN Bad("load:foreign-trc-stored")
+    \* TRCs of other ISDs / base numbers in the store: [isd, base, serial, future]; only listed, parsable,
+    \* past files of that ISD may have got there
+    IF Outside(R.stored, S) THEN Bad("load:stored-outside-range")
+    ELSE IF \E i \in 1..Len(R.foreign) : R.foreign[i][4] = 1 THEN Bad("load:future-trc-loaded:other-isd")
+    ELSE IF \E i \in 1..Len(R.foreign) : ~\E k \in 1..Len(R.files) :
+                /\ R.files[k].isd = R.foreign[i][1] /\ R.files[k].serial = R.foreign[i][3]
+                /\ ~R.files[k].future /\ ~R.files[k].junk /\ R.foreign[i][2] = 1
+         THEN Bad("load:foreign-trc-stored")
     ELSE IF \E s \in new : obs[s] \in {"af", "bf"} THEN Bad("load:future-trc-loaded")
     ELSE IF \E s \in new : db[s] # "none" THEN Bad("load:stored-trc-replaced")
     ELSE IF \E s \in new : ~\E i \in 1..Len(R.files) :
                 R.files[i].serial = s /\ R.files[i].content = obs[s] /\ ~R.files[i].future
+                /\ ~R.files[i].junk /\ R.files[i].isd = 1
          THEN Bad("load:stored-something-else")
     ELSE /\ db' = obs
          /\ (obs # exp.db \/ ((R.errnil = 1) # (exp.err = ""))) => PrintT(<<"VERIF-DRIFT", l, "load-result">>)
+         /\ fg' = FSet(R.foreign)
          /\ UNCHANGED <<failed, nadv, nstop>>
 
 (* 2-3 simultaneous NotifyTRC calls on one database (real goroutines; no linearization points are
@@ -91,20 +103,20 @@ Concurrent ==
                     /\ Len(F(i)) > 0 => (F(i)[1] > init /\ F(i)[Len(F(i))] <= R.calls[i].serial)
         stopOK(i) == \A k \in 1..(Len(F(i)) - 1) : O(i, F(i)[k]) \in GoodOutcomes
     IN
-    IF R.foreign # 0 \/ Outside(R.stored, S) THEN Bad("concurrent:foreign-trc-stored")
+    IF ~(FSet(R.foreign) \subseteq fg) \/ Outside(R.stored, S) THEN Bad("concurrent:foreign-trc-stored")
     ELSE IF ~Contiguous(obs, 1) THEN Bad("concurrent:gap-in-succession")
     ELSE IF \E s \in S : s <= init /\ obs[s] # db[s] THEN Bad("concurrent:stored-trc-replaced")
     ELSE IF \E s \in S : s > init /\ obs[s] # "none" /\ ~served(s) THEN Bad("concurrent:stored-unverified-or-unserved")
     ELSE IF \E i \in 1..n : ~seqOK(i) THEN Bad("concurrent:fetch-order")
     ELSE IF \E i \in 1..n : ~stopOK(i) THEN Bad("concurrent:continued-after-failure")
     ELSE IF \E i \in 1..n : R.calls[i].errnil = 1 /\ Latest(obs) < R.calls[i].serial THEN Bad("concurrent:returned-nil-before-target")
-    ELSE /\ db' = obs /\ UNCHANGED <<failed, nstop>>
+    ELSE /\ db' = obs /\ UNCHANGED <<failed, nstop, fg>>
          /\ nadv' = nadv + (IF Latest(obs) > init THEN 1 ELSE 0)
 
 Step == /\ l <= Len(Trace)
         /\ l' = l + 1
         /\ IF R.ev = "reset" THEN Reset
-           ELSE IF failed THEN UNCHANGED <<db, failed, nadv, nstop>>
+           ELSE IF failed THEN UNCHANGED <<db, failed, nadv, nstop, fg>>
            ELSE CASE R.ev = "notify" -> Notify
                   [] R.ev = "load" -> Load
                   [] R.ev = "concurrent" -> Concurrent
